@@ -11,19 +11,43 @@ AS_TOKEN = "pest_typed::iterators::Pair::as_token"
 class Fwd:
     """Ordered list of what a for_self_or_each_child body does: ('fwd', place) | ('emit', what) | ('callf', what)"""
 
-    def __init__(self, crate, body):
+    def __init__(self, crate, body, bound=None, depth=0):
+        """bound: for an inlined helper, the caller's place of each parameter ('<f>' marks the callback)."""
         self.c = crate
         self.acts = []
         self.env = {}
+        self.depth = depth
+        self.fvar = None
         params = body["params"]
         names = []
         for p in params:
             for b in pat_binds(p):
                 names.append(b)
-        if names:
-            self.env[names[0]["var"]] = "self"
-            self.fvar = names[1]["var"] if len(names) > 1 else None
+        if bound is None:
+            if names:
+                self.env[names[0]["var"]] = "self"
+                self.fvar = names[1]["var"] if len(names) > 1 else None
+        else:
+            for b, pl in zip(names, bound):
+                if pl == "<f>":
+                    self.fvar = b["var"]
+                else:
+                    self.env[b["var"]] = pl
+        if self.fvar is not None:
+            self.env[self.fvar] = "<f>"
         self.stmt(body["value"])
+
+    def helper(self, base, args):
+        """A crate-local function that is handed the callback: its forwarding acts, with its parameters bound to the caller's places."""
+        if self.depth >= 3:
+            return None
+        places = [self.place(a) for a in args]
+        if "<f>" not in places:
+            return None
+        b = self.c.body(base)
+        if b is None or len(b.get("params", [])) != len(args):
+            return None
+        return Fwd(self.c, b, places, self.depth + 1).acts
 
     def place(self, e):
         k = e["k"]
@@ -112,6 +136,10 @@ class Fwd:
                         what = self.place(inner)
                 self.acts.append(("emit", what))
                 return
+            sub = self.helper(base, args) if base else None
+            if sub is not None:
+                self.acts.extend(sub)
+                return
             for a in args:
                 self.stmt(a)
             return
@@ -149,6 +177,11 @@ class Fwd:
                 name = arm["pat"].get("res", {}).get("path", "_").rsplit("::", 1)[-1] if arm["pat"]["k"] in ("tstruct", "expr", "struct") else "_"
                 arms.append((name, self.acts))
                 self.acts = saved
+            if sorted(n for n, _ in arms) == ["None", "Some"]:
+                # `match o { Some(x) => A, None => B }` is `if let Some(x) = o { A } else { B }`
+                d = dict(arms)
+                self.acts.append(("iflet", base, "Some", tuple(d["Some"]), tuple(d["None"])))
+                return
             self.acts.append(("match", base, tuple((n, tuple(a)) for n, a in arms)))
             return
         if k == "if":
@@ -353,45 +386,16 @@ def run(ctx):
             rr.inst(im.key(), im.loc, "ok", {"children": acts})
         else:
             rr.violate(im.key(), "%s rule reports children %s, expected %s" % ("(compound-)atomic" if atomic else "non-atomic", acts, want), im.loc)
-    # as_token / to_thin / children (default methods) in pest_typed: field data-flow
-    repo = fs["pest_typed"]
-    checks = [
-        ("pest_typed::iterators::Pair::as_token", {"rule": "rule", "span": "span", "children": "children"}),
-        ("pest_typed::iterators::Token::<'i, R>::to_thin", {"rule": "rule", "start": "start", "end": "end", "children": "children"}),
-    ]
-    for fid, fields in checks:
-        b = repo.body(fid)
-        if b is None:
-            rr.violate(fid, "function missing", None)
-            continue
-        st = None
-        for n in walk(b["value"]):
-            if n["k"] == "struct":
-                st = n
-        if st is None:
-            rr.violate(fid, "does not construct a token", repo.loc(b["value"].get("sp")))
-            continue
-        flat = repr(b["value"])
-        okf = True
-        for f in st["fields"]:
-            src = repr(f["e"])
-            want = fields.get(f["name"])
-            # the field's value must be derived from the same-named accessor/field/local of self
-            if want and ("'name': '%s'" % want) not in src and ("'name': '%s'" % f["name"]) not in src:
-                okf = False
-        # resolve locals: local named like the field must be initialised from the same-named accessor
-        lets = {}
-        for n in walk(b["value"]):
-            if n["k"] == "block":
-                for s in n.get("stmts", []):
-                    if s["k"] == "let" and s["pat"].get("k") == "bind" and "init" in s:
-                        lets[s["pat"]["name"]] = repr(s["init"])
-        for nm, src in lets.items():
-            want = fields.get(nm)
-            if want and ("'name': '%s'" % want) not in src:
-                okf = False
-        (rr.inst(fid, repo.loc(b["value"].get("sp"))) if okf else rr.violate(fid, "token fields are not copied from the same-named parts of self", repo.loc(b["value"].get("sp"))))
+    # as_token / to_thin / as_thin_token / children / self_or_children (default methods) in pest_typed: compared as resolved terms
+    from . import c15
+    c15.token_rules(rr, fs["pest_typed"])
     rr.require(20, "rule-struct instances")
+    # tokens come from the nodes a container stored: a matched child that is not stored contributes nothing (seed C02-6)
+    from . import store
+    rst = ctx.rule("R02-STORE", "container nodes return, on every path, a node that contains the node of each child that matched on that path "
+                                "(the token tree is built from the stored nodes)")
+    store.store_rule(rst, world)
+    rst.require(30, "container functions")
     skip_tokens_rule(ctx)
     ctx.assume("equality with pest's tree on inputs and span values are not decided; this decides which nodes contribute tokens and in what order")
     ctx.explanation = ("Every impl of Pairs and Pair in pest_typed and in the macro fixture is walked (typed HIR, calls resolved): the ordered "
